@@ -8,6 +8,7 @@ if ! git apply "$patch" 2>/tmp/apply.err; then
   git reset -q
 fi
 cd /verif
+export VERIF_EVIDENCE_DIR=/tmp/mutant-evidence
 for c in "$@"; do
   out=$(VERIF_SEED=${VERIF_SEED:-1} python3 check.py $c --tier ${TIER:-quick} 2>&1); rc=$?
   echo "== $c rc=$rc"; echo "$out" | grep -E "^\[C|violation:|KNOWN|INCONCL" | cut -c1-${WIDTH:-400} | head -${LINES_MAX:-8}
